@@ -93,6 +93,50 @@ def _run(prog, chk):
                (idx, nm, "" if last_empty else "; the list has NO terminator: the name lookup reads past the array"),
                loc="src/ksi/hash.c:%d" % (ng["line"] if ng else g["line"]), key=idx)
 
+    # ------------------------------------------------------------------ every lookup in the table is behind both bounds
+    # ids reach these functions as a signed enum narrowed from a parsed 64-bit integer: 0x80000000 is a negative index
+    from ksirules.flow import g_any, g_cmp, g_true, must_pass
+    from ksirules.model import is_int, walk
+    chk.rule("C12.index", "every index into the hash algorithm table is below the row count and not negative on every path", floor=8)
+    nidx = 0
+    for fn in sorted(prog.all_functions(), key=lambda f: (f.unit, f.line)):
+        if fn.unit != "hash.c":
+            continue
+        sites = {}
+        for b, i, n in fn.nodes():
+            if n.get("k") == "idx" and strip(n["b"]).get("k") == "var" and strip(n["b"]).get("n") == "KSI_hashAlgorithmInfo":
+                ix = fn.resolve(strip(n["i"]))
+                while isinstance(ix, dict) and ix.get("k") == "cast":
+                    ix = fn.resolve(strip(ix["e"]))
+                if is_int(ix):
+                    continue
+                key = lvalue_key(ix, fn)
+                sites.setdefault(key or show(ix, fn), []).append((b, i, ix))
+        for key, lst in sorted(sites.items()):
+            nidx += 1
+            blocks = {b for b, i, ix in lst}
+            unsigned = "unsigned" in (lst[0][2].get("t") or "") or (lst[0][2].get("t") or "") in ("size_t",)
+
+            def same(f, x, key=key):
+                x = f.resolve(strip(x))
+                while isinstance(x, dict) and x.get("k") == "cast":
+                    x = f.resolve(strip(x["e"]))
+                return lvalue_key(x, f) == key
+            valid = g_true("ksi_isHashAlgorithmIdValid", lambda f, call, key=key: bool(call["a"]) and same(f, call["a"][0]))
+            upper = g_any(valid, g_cmp("<", same, lambda f, x: is_int(f.resolve(strip(x))) and strip(f.resolve(strip(x)))["v"] <= n_known, "index < rows"))
+            lower = g_any(valid, g_cmp(">=", same, lambda f, x: is_int(f.resolve(strip(x))) and strip(f.resolve(strip(x)))["v"] >= 0, "index >= 0"),
+                          g_cmp(">", same, lambda f, x: is_int(f.resolve(strip(x))) and strip(f.resolve(strip(x)))["v"] >= -1, "index > -1"))
+            wu = must_pass(fn, blocks, upper)
+            wl = None if unsigned else must_pass(fn, blocks, lower)
+            ok = wu is None and wl is None
+            chk.ob("C12.index", "%s:%s" % (fn.name, key), ok,
+                   "KSI_hashAlgorithmInfo[%s]: %s" % (key, "both bounds established on every path" if ok else
+                                                      ("no upper bound (%s < %d) on some path" % (key, n_known) if wu is not None else
+                                                       "no lower bound on some path: %s is a signed value narrowed from 64 bits, a negative id indexes in front of the table" % key)),
+                   loc=fn.loc(fn.elem_line(lst[0][0], lst[0][1])), fn=fn, path=path_lines(fn, wu or wl) if not ok else None)
+    if nidx < 8:
+        raise AnalysisBroken("C12.index: only %d lookups of KSI_hashAlgorithmInfo found" % nidx)
+
     # ------------------------------------------------------------------ unbounded copies
     found = 0
     for fn in prog.all_functions():
